@@ -99,8 +99,10 @@ class OptimizationAbstract(ABC, Generic[T]):
             return [self._init_agent() for _ in range(0, n_agents)]
 
         # Parallel mode
+        # the random positions are drawn here: forked workers would otherwise all replay the same random stream
+        positions = [self._task.empty_solution() for _ in range(0, n_agents)]
         with get_pool_executor(self._mode, self._workers) as executor:
-            executors = [executor.submit(self._init_agent) for _ in range(0, n_agents)]
+            executors = [executor.submit(self._init_agent, position) for position in positions]
             pop = get_pool_results(executors)
         return pop
 
